@@ -2,6 +2,7 @@
 namespace Sqlc.Gen
 def cmdConstants : List String := [":exec", ":execresult", ":execrows", ":many", ":one"]
 def cmdAccepted : List String := [":exec", ":execresult", ":execrows", ":many", ":one"]
+def cmdAcceptedB : List (List UInt8) := [[58, 101, 120, 101, 99], [58, 101, 120, 101, 99, 114, 101, 115, 117, 108, 116], [58, 101, 120, 101, 99, 114, 111, 119, 115], [58, 109, 97, 110, 121], [58, 111, 110, 101]]
 def namePrefixes : List String := ["-- name:", "/* name:", "# name:"]
 /-- (engine, dash, hash, slashStar) from each parser's CommentSyntax() -/
 def commentSyntax : List (String × Bool × Bool × Bool) := [("postgresql", true, false, true), ("mysql", true, true, true), ("sqlite", true, false, false)]
